@@ -78,8 +78,8 @@ def rel(t1, t2, env):
         if a and b:
             return "same" if c1 is c2 else None
         return "lt" if a else "gt" if b else "none"
-    d1 = (not s1) and t1[0] in ("D", "L")
-    d2 = (not s2) and t2[0] in ("D", "L")
+    d1 = (not s1) and t1[0] in ("D", "L", "W")
+    d2 = (not s2) and t2[0] in ("D", "L", "W")
     if d1 and s2:
         return _dep_vs_class(t1, t2, env)
     if d2 and s1:
@@ -90,9 +90,26 @@ def rel(t1, t2, env):
         if isinstance(b1, str) and isinstance(b2, str) and b1 == b2:
             if t1[0] == "L" and t2[0] == "L":
                 return "none"
+            if t1[0] == "W" and t2[0] == "W":
+                return _wild_rel(t1[1:], t2[1:])
             return "none"   # no user-defined '<' between harness predicates
         return None
     return None
+
+
+def _wild_rel(p1, p2):
+    """docs/dependent.md, Wildcards: `Any` is more general than a specific value *in that position*; a pattern is
+    preferred over another iff it is at least as specific everywhere and more specific somewhere.  Patterns that differ
+    in a specific value never hold together, so their relation cannot matter ('none')."""
+    if len(p1) != len(p2) or any(a != b and a != "*" and b != "*" for a, b in zip(p1, p2)):
+        return "none"
+    g1 = any(a == "*" and b != "*" for a, b in zip(p1, p2))   # p1 more general somewhere
+    g2 = any(b == "*" and a != "*" for a, b in zip(p1, p2))
+    if g2 and not g1:
+        return "lt"
+    if g1 and not g2:
+        return "gt"
+    return "none"
 
 
 def _dep_vs_class(d, c, env):
